@@ -1,6 +1,7 @@
 import ZoektModel.Basic.Proto
 import ZoektModel.C01.Spec
 import ZoektModel.C01.BTree
+import ZoektModel.C01.Word
 namespace ZoektModel.C01
 open ZoektModel ZoektModel.Proto
 
@@ -140,11 +141,26 @@ def handleBtree (b v ngs qs impl : String) : String :=
       else answer model
   | _, _, _, _ => badCase "fields"
 
+/-- `word <data hex> <word hex>`: offsets reported by the fast path; spec: something is reported iff the word occurs
+    somewhere between non-word bytes -/
+def handleWord (dataHex wordHex impl : String) : String :=
+  match hexToBytes? dataHex, hexToBytes? wordHex with
+  | some d, some w =>
+    let data := d.map (·.toNat)
+    let word := w.map (·.toNat)
+    let model := "found=" ++ showNatList (wordMatches data word)
+    let implFound := (impl.drop 6).toString != "-"
+    if !impl.startsWith "found=" then badCase "impl output"
+    else if implFound != wordSpec data word then specFail model "word-fastpath-differs-from-scan"
+    else answer model
+  | _, _ => badCase "fields"
+
 def handle (line : String) : String :=
   let (inp, impl) := splitCase line
   match fields inp with
   | ["search", live, names, contents, tree] => handleSearch live names contents tree impl
   | ["btree", b, v, ngs, qs] => handleBtree b v ngs qs impl
+  | ["word", d, w] => handleWord d w impl
   | _ => badCase "op"
 
 def main : IO Unit := runLines handle
